@@ -62,6 +62,17 @@ def m22(terms):
     return '⟨' + ', '.join(terms) + '⟩'
 
 
+def recognise(g, name, source, node_fn, check):
+    """a structural fact as an ITEM: `true` when the known-good shape of the source is recognised; when it is not
+    (a refactor, or a change of behaviour) the item is `untranslatable`, which widens the correspondence sweep that
+    checks the behaviour itself — a harmless rewrite never alarms, a harmful one is caught on the real outputs."""
+    def build():
+        if not check():
+            raise Untranslatable('source shape not recognised')
+        return f'def {name} : Bool := true'
+    g.item(name, source, node_fn, build, f'def {name} : Bool := true')
+
+
 def generate(repo):
     g = Gen('C17', imports=['PrysmVerif.Model.C17'], opens=['Model.C17'],
             header='set_option linter.unusedVariables false\nvariable {K : Type} [Num K]')
@@ -225,27 +236,27 @@ def generate(repo):
         texts = sorted(ast.unparse(c) for c in calls)
         return texts == sorted(['snell_aor(ambient_index, indices[:, i], aoi, degrees=False)',
                                 'snell_aor(ambient_index, indices[i], aoi, degrees=False)'])
-    g.fact('stackAnglesFromAmbientBySnell', 'prysm/thinfilm.py:multilayer_stack_rt', snell_wiring)
+    recognise(g, 'stackAnglesFromAmbientBySnell', 'prysm/thinfilm.py:multilayer_stack_rt', None, snell_wiring)
 
     def aoi_radians():
         fn = stack_fn()
         a = [ast.unparse(st.value) for st in fn.body if isinstance(st, ast.Assign) and ast.unparse(st.targets[0]) == 'aoi']
         return a == ['np.radians(aoi)']
-    g.fact('stackAoiDegreesToRadians', 'prysm/thinfilm.py:multilayer_stack_rt', aoi_radians)
+    recognise(g, 'stackAoiDegreesToRadians', 'prysm/thinfilm.py:multilayer_stack_rt', None, aoi_radians)
 
     def layer_wiring():
         calls = find_calls(stack_fn(), 'fn1')
         texts = sorted(ast.unparse(c) for c in calls)
         return texts == sorted(['fn1(wavelength, thicknesses[:, i], indices[:, i], angles[:, i])',
                                 'fn1(wavelength, thicknesses[i], indices[i], angles[i])'])
-    g.fact('stackLayerArgsInOrder', 'prysm/thinfilm.py:multilayer_stack_rt', layer_wiring)
+    recognise(g, 'stackLayerArgsInOrder', 'prysm/thinfilm.py:multilayer_stack_rt', None, layer_wiring)
 
     def exit_wiring():
         calls = find_calls(stack_fn(), 'fn2')
         texts = sorted(ast.unparse(c) for c in calls)
         return texts == sorted(['fn2(ambient_index, aoi, Mjs, indices[:, -1], angles[:, -1])',
                                 'fn2(ambient_index, aoi, Mjs, indices[-1], angles[-1])'])
-    g.fact('stackExitMediumIsLastLayer', 'prysm/thinfilm.py:multilayer_stack_rt', exit_wiring)
+    recognise(g, 'stackExitMediumIsLastLayer', 'prysm/thinfilm.py:multilayer_stack_rt', None, exit_wiring)
 
     def dispatch():
         fn = stack_fn()
@@ -256,14 +267,14 @@ def generate(repo):
                 found[pol] = sorted(ast.unparse(s) for s in st.body)
         return found == {'p': ['fn1 = characteristic_matrix_p', 'fn2 = multilayer_matrix_p'],
                          's': ['fn1 = characteristic_matrix_s', 'fn2 = multilayer_matrix_s']}
-    g.fact('stackPolarizationDispatch', 'prysm/thinfilm.py:multilayer_stack_rt', dispatch)
+    recognise(g, 'stackPolarizationDispatch', 'prysm/thinfilm.py:multilayer_stack_rt', None, dispatch)
 
     def split():
         fn = stack_fn()
         a = {ast.unparse(st.targets[0]): ast.unparse(st.value) for st in fn.body if isinstance(st, ast.Assign)}
         return a.get('indices') == 'stack[:, 0, ...]' and a.get('thicknesses') == 'stack[:, 1, ...]' \
             and a.get('r') == 'rtot(A)' and a.get('t') == 'ttot(A)'
-    g.fact('stackIndexThicknessColumnsAndTotals', 'prysm/thinfilm.py:multilayer_stack_rt', split)
+    recognise(g, 'stackIndexThicknessColumnsAndTotals', 'prysm/thinfilm.py:multilayer_stack_rt', None, split)
 
     return g.finish()
 
